@@ -492,6 +492,14 @@ class MessageManager(ClientLike):
 
         # Read Data Section
         data_size = self.header.num_data_bytes
+        if data_size < 0 or data_size > len(self.data_buffer):
+            mod = self.modules[sock]
+            self.remove_module(mod)
+            self.logger.warning(
+                f"DROPPING - {mod!s} - Invalid data size in header: {data_size}."
+            )
+            return False
+
         if data_size:
             nbytes = sock.recv_into(self.data_buffer, data_size, socket.MSG_WAITALL)
 
@@ -721,7 +729,8 @@ class MessageManager(ClientLike):
         """Send TIMING_MESSAGE"""
         data = cd.MDF_TIMING_MESSAGE()
         for mt, count in self.message_counts.items():
-            data.timing[mt] = count
+            if 0 <= mt < cd.MAX_MESSAGE_TYPES:
+                data.timing[mt] = count
         self.message_counts.clear()
 
         for mod in self.modules.values():
